@@ -94,7 +94,25 @@ func RunFree(body func()) {
 // back to real primitives when not (so the same binary can run free under -race).
 func Active() bool { return s != nil && s.active }
 
-func goid() uint64 {
+// Uncontrolled runs f with the scheduler switched off: the shims use the real
+// primitives, goroutines f starts are ordinary goroutines. It is meant for
+// constructors that start background goroutines which the harness stops again
+// inside f. It must be called while the caller is the only runnable thread, and
+// f must not leave a goroutine behind that later calls a shim, nor a shimmed
+// primitive held or counted.
+func Uncontrolled(f func()) {
+	sc := s
+	if sc == nil || !sc.active {
+		f()
+		return
+	}
+	sc.checkCaller("Uncontrolled")
+	sc.active = false
+	defer func() { sc.active = true }()
+	f()
+}
+
+func slowGoid() uint64 {
 	var buf [64]byte
 	n := runtime.Stack(buf[:], false)
 	// "goroutine 123 ["
